@@ -147,6 +147,9 @@ def run(ctx, rep):
     from . import c12 as _c12
 
     _c12.union_dispatch(ctx, rep)  # ... including owners held by an ArcUnion: they are counted on the block of the Arc they were made from
+    from . import c11 as _c11
+
+    _c11.rule_refcnt_pair(ctx, rep)  # ... and owners lent by arc-swap: a guard's debt is settled by comparing `as_ptr` with `into_ptr`; if the glue lets them differ a count nobody owned is released and a co-owner is taken for the sole owner
     from . import c03
 
     c03.rule_gate_def(ctx, rep)  # exactly-one-winner under races rests on the Acquire gate (and on C02)
@@ -185,6 +188,7 @@ def main(argv):
             ' Added later: R-FREE-TYPE as a premise ("the allocation is released": the sole owner gives the block back as the type and layout it was handed out as); the payload read is recognised by pointer normal form.'
             ' R-DESTROY as a premise; R-UNIQUE-VIEW; the gate family is every function returning a UniqueArc.'
             ' Round thirteen/fourteen: R-RACY-ASSERT inside R-UNW (seed: `debug_assert!(count > 1)` with the handle disarmed); c12.union_dispatch as a premise.'
+            ' Round nineteen: R-REFCNT-PAIR of C11 as a premise (seed: the arc-swap glue of Arc hands out the block pointer from into_ptr and the value pointer from as_ptr; a dropped load() guard then releases a count it never took and try_unwrap succeeds beside a live owner).'
             ' Round fifteen: strict R-RACY-ASSERT.'
         ),
         rule_text="instances = (function, path-set | no-destructor | moves-data | decline)",
